@@ -10,6 +10,7 @@ import (
 	"fmt"
 	"hash"
 	"math/big"
+	"sync"
 
 	"github.com/free5gc/ike/message"
 	"github.com/free5gc/ike/security"
@@ -59,8 +60,8 @@ type recReader struct {
 func (r *recReader) Read(b []byte) (int, error) {
 	idx := r.reads
 	r.reads++
-	if r.failAt >= 0 && idx >= r.failAt {
-		return 0, errors.New("verif: random source failure")
+	if r.failAt >= 0 && (idx == r.failAt || (idx > r.failAt && r.mode != "failonce")) {
+		return 0, errors.New("verif: random source failure") // "fail": from read failAt on; "failonce": that read only
 	}
 	if r.chunk > 0 && len(b) > r.chunk {
 		b = b[:r.chunk]
@@ -152,6 +153,36 @@ func actDeriveChild(e *Env, a J) J {
 	}
 	if c.EncrKInfo == nil {
 		return J{"infra": "derive_child: encr"}
+	}
+	if via := gs(a, "via"); via != "" {
+		// the Child SA as it comes out of a negotiated ESP proposal (NewChildSAKeyByProposal), with or without a DH transform:
+		// the proposal the name-built object advertises, optionally without / with another group, over the wire and back
+		p, err := c.ToProposal()
+		if err != nil {
+			return J{"infra": "derive_child: ToProposal: " + err.Error()}
+		}
+		switch via {
+		case "proposal-dh2":
+			p.DiffieHellmanGroup = message.TransformContainer{dh.ToTransform(dh.StrToType(dhNames[2]))}
+		case "proposal-dh14":
+			p.DiffieHellmanGroup = message.TransformContainer{dh.ToTransform(dh.StrToType(dhNames[14]))}
+		default:
+			p.DiffieHellmanGroup = nil
+		}
+		sa := &message.SecurityAssociation{Proposals: message.ProposalContainer{p}}
+		b, err := sa.Marshal()
+		if err != nil {
+			return J{"infra": "derive_child: marshal: " + err.Error()}
+		}
+		sa2 := new(message.SecurityAssociation)
+		if err := sa2.Unmarshal(b); err != nil {
+			return J{"infra": "derive_child: unmarshal: " + err.Error()}
+		}
+		c2, err := security.NewChildSAKeyByProposal(sa2.Proposals[0])
+		if err != nil {
+			return J{"err": true, "errmsg": "NewChildSAKeyByProposal: " + err.Error()}
+		}
+		c = c2
 	}
 	err := c.GenerateKeyForChildSA(o.key, []byte(gox(a, "nonce")))
 	obs := errObs(err)
@@ -605,6 +636,11 @@ func projOneTransform(t *message.Transform) J {
 	return l[0].(J)
 }
 
+var (
+	handedMu  sync.Mutex
+	handedOut = map[*message.Transform]bool{}
+)
+
 func actAlgToTransform(e *Env, a J) J {
 	kind, name := gs(a, "kind"), gs(a, "name")
 	var t *message.Transform
@@ -642,6 +678,31 @@ func actAlgToTransform(e *Env, a J) J {
 		obs["tr"] = projOneTransform(t)
 		for k, x := range info {
 			obs[k] = x
+		}
+		// the transform is the caller's now (it goes into a proposal the caller may edit): changing it, then asking for the
+		// same algorithm again, gives the same transform as the first time
+		first := digest(obs["tr"])
+		// (a transform object that was handed out before -- to anyone -- is not edited again: its first owner may be using it)
+		handedMu.Lock()
+		seen := handedOut[t]
+		handedOut[t] = true
+		handedMu.Unlock()
+		if seen {
+			obs["fresh"] = false
+			return obs
+		}
+		t.TransformID ^= 0x5a5a
+		t.AttributePresent = !t.AttributePresent
+		t.AttributeType, t.AttributeValue = 0x7777, 0x3333
+		t.VariableLengthAttributeValue = append(t.VariableLengthAttributeValue, 0xee)
+		a2 := J{}
+		for k, x := range a {
+			a2[k] = x
+		}
+		a2["noedit"] = true
+		if !gb(a, "noedit") {
+			o2 := actAlgToTransform(e, a2)
+			obs["fresh"] = digest(o2["tr"]) == first
 		}
 	}
 	return obs
